@@ -22,7 +22,15 @@ ASSUMPTIONS = ["single consumer task (the class documents this)", "the model is 
 
 
 class Err(Exception):
-    pass
+    """exception classes are arbitrary: this one has a keyword-only constructor (the usual shape of a project's structured
+    errors), so it cannot be rebuilt as `cls(*args)` – the queue has to hand on the object it was given"""
+
+    def __init__(self, what="e", *, code: int = 0):
+        super().__init__(what)
+        self.code = code
+
+    def __reduce__(self):
+        raise TypeError("structured error: cannot be rebuilt from its args")
 
 
 class FalsyErr(Err):
@@ -127,8 +135,9 @@ def run_real(case: str) -> str:
                 raise exc
             except StopAsyncIteration:
                 got.append("stop")
-            except Err:
-                got.append("err")
+            except Err as e:
+                # the finish reason is the object that was given, not a reconstruction of it
+                got.append("err" if e is state.get("given") else "err-copy")
             except asyncio.CancelledError:
                 got.append("cancelled" if cell["flag"] else "qcancelled")
             except BaseException as exc2:  # noqa: BLE001
@@ -158,7 +167,9 @@ def run_real(case: str) -> str:
             elif tok == "finerr":
                 # the given exception is an arbitrary object: in half of the cases an instance that is *falsy* (a class
                 # defining `__len__` – collection-like errors, exception groups of a project's own) – it is the finish reason all the same
-                q.finish(FalsyErr("e") if rot % 2 else Err("e"))
+                given = FalsyErr("e", code=7) if rot % 2 else Err("e", code=7)
+                state.setdefault("given", given)     # the first finish decides the reason
+                q.finish(given)
             elif tok == "cancelq":
                 q.cancel()
             elif tok == "recv":
